@@ -103,6 +103,12 @@ func (ssf *serverStreamFormat) writePacketRTP(pkt *rtp.Packet, ntp time.Time) er
 		maxPlainPacketSize -= srtpOverhead
 	}
 
+	// a maximum packet size that does not even leave room for the SRTP overhead
+	// cannot be respected by any packet
+	if maxPlainPacketSize < 0 {
+		maxPlainPacketSize = 0
+	}
+
 	plain := make([]byte, maxPlainPacketSize)
 	n, err := pkt.MarshalTo(plain)
 	if err != nil {
